@@ -49,6 +49,15 @@ func NewBlockValidator(config *params.ChainConfig, blockchain *BlockChain, engin
 // header's transaction and uncle roots. The headers are assumed to be already
 // validated at this point.
 func (v *BlockValidator) ValidateBody(block *types.Block) error {
+	// The body must be the one the header commits to, whatever becomes of the block: a known block above
+	// the head is imported again and a block on a pruned ancestor is stored as it is
+	header := block.Header()
+	if hash := types.CalcUncleHash(block.Uncles()); hash != header.UncleHash {
+		return fmt.Errorf("uncle root hash mismatch: have %x, want %x", hash, header.UncleHash)
+	}
+	if hash := types.DeriveSha(block.Transactions()); hash != header.TxHash {
+		return fmt.Errorf("transaction root hash mismatch: have %x, want %x", hash, header.TxHash)
+	}
 	// Check whether the block's known, and if not, that it's linkable
 	//block.SetVersion(v.config.GetBlockVersion(block.Number()))
 	if v.bc.HasBlockAndState(block.Hash(), block.NumberU64()) {
@@ -60,18 +69,8 @@ func (v *BlockValidator) ValidateBody(block *types.Block) error {
 		}
 		return consensus.ErrPrunedAncestor
 	}
-	// Header validity is known at this point, check the uncles and transactions
-	header := block.Header()
-	if err := v.engine.VerifyUncles(v.bc, block); err != nil {
-		return err
-	}
-	if hash := types.CalcUncleHash(block.Uncles()); hash != header.UncleHash {
-		return fmt.Errorf("uncle root hash mismatch: have %x, want %x", hash, header.UncleHash)
-	}
-	if hash := types.DeriveSha(block.Transactions()); hash != header.TxHash {
-		return fmt.Errorf("transaction root hash mismatch: have %x, want %x", hash, header.TxHash)
-	}
-	return nil
+	// Header validity is known at this point, check the uncles
+	return v.engine.VerifyUncles(v.bc, block)
 }
 
 // ValidateState validates the various changes that happen after a state
